@@ -228,26 +228,12 @@ theorem oc_authorize (F : TFacts) (v : J) {s : OnceSt} (hs : Fresh s) (f : Bool 
   · exact end_fail (nh := isNotHandled) hs
   · apply Oc.bind
     apply Oc.bind
-    · have hfold : ∀ (ys : List J) (init : List Iri) (Q : OnceSt → Option (List Iri) → Prop),
-          (∀ l, Q s (some l)) → Q s none →
-          Oc s (ys.foldlM (fun (acc : List Iri) j =>
-            match Val.elemOf F j with
-            | .iri u => pure (acc ++ [u])
-            | .emb _ => do
-              let id ← activityIdGet "AuthorizePostInbox: activity.GetJSONLDId().Get()" v
-              pure (acc ++ [id])
-            | .other _ => Prog.fail .lib) init) Q := by
-        intro ys
-        induction ys with
-        | nil => intro init Q h1 _; exact h1 _
-        | cons y ys ih =>
-          intro init Q h1 h2
-          rw [List.foldlM_cons]
-          apply Oc.bind
-          split
-          · exact ih _ _ h1 h2
-          · exact oc_activityIdGet _ _ _ (fun id => ih _ _ h1 h2)
-          · exact h2
+    · have hfold : ∀ (x : Except Unit (List Iri)) (Q : OnceSt → Option (List Iri) → Prop),
+          (∀ l, Q s (some l)) → Q s none → Oc s (liftLib x) Q := by
+        intro x Q h1 h2
+        cases x with
+        | error _ => exact h2
+        | ok l => exact h1 l
       apply hfold
       · intro iris
         unfold Op.blocked
